@@ -2,6 +2,7 @@
 package c10
 
 import (
+	"context"
 	ae "github.com/godaddy/asherah/go/appencryption"
 	"github.com/godaddy/asherah/go/appencryption/pkg/crypto/aead"
 	"github.com/godaddy/asherah/go/appencryption/pkg/kms"
@@ -40,6 +41,15 @@ func (s *spyAEAD) checkWiped(label string, returned []byte) {
 		vx.Assert(label, vx.AllZero(b))
 	}
 	s.outs = nil
+}
+
+// callCtx: the caller's context for one operation; with ctxcancel=1 it may end while a metastore / KMS call of the
+// operation is in flight (that call still succeeds and hands back its plaintext).
+func callCtx() (context.Context, func()) {
+	if vx.Param("ctxcancel") == 1 {
+		return env.CancellableCtx()
+	}
+	return env.Ctx, func() {}
 }
 
 // Wipes: cold/warm encrypts and decrypts with the real secure-memory factories; optional allocator fault.
@@ -108,7 +118,9 @@ func Wipes() {
 	f2 := mk()
 	s2, _ := f2.GetSession("p0")
 	fault(true)
-	out, err = s2.Decrypt(env.Ctx, *rec)
+	ctx, done := callCtx()
+	out, err = s2.Decrypt(ctx, *rec)
+	done()
 	fault(false)
 	spy.checkWiped("C10.wiped_after_cold_decrypt", out)
 	if err != nil {
@@ -120,7 +132,9 @@ func Wipes() {
 	f3 := mk()
 	s3, _ := f3.GetSession("p0")
 	fault(true)
-	_, err = s3.Encrypt(env.Ctx, []byte{3})
+	ctx, done = callCtx()
+	_, err = s3.Encrypt(ctx, []byte{3})
+	done()
 	fault(false)
 	spy.checkWiped("C10.wiped_after_loading_encrypt", nil)
 	vx.Reach("C10.end")
